@@ -81,6 +81,8 @@ impl Client {
         let session = self.create_stream().await?;
         tracing::debug!("[Client] Got session for proxy stream");
 
+        #[cfg(feature = "verif-hooks")]
+        crate::verif::sched_point("create_proxy_stream:before_open").await;
         // Open a new stream in the session
         let (stream, synack_rx) = session.open_stream().await?;
         tracing::debug!(
@@ -137,12 +139,16 @@ impl Client {
             stream_id
         );
 
+        #[cfg(feature = "verif-hooks")]
+        crate::verif::sched_point("create_proxy_stream:before_disable_buffering").await;
         // Disable buffering before writing first data frame
         // This is critical: in Go version, buffering is disabled when proxy writes SocksAddr
         // This ensures buffered Settings frame is flushed along with the first data
         session.disable_buffering();
         tracing::debug!("[Client] Buffering disabled, buffer will be flushed");
 
+        #[cfg(feature = "verif-hooks")]
+        crate::verif::sched_point("create_proxy_stream:before_dest_write").await;
         session
             .write_data_frame(stream_id, Bytes::from(addr_bytes))
             .await?;
